@@ -1,10 +1,15 @@
 P = {
     "level_text": "Theorems (kernel-checked, all histories / all interleavings): counters on the wire pairwise distinct under any interleaving of concurrent senders; monotone when calls do not overlap; withheld only if an identical request is unanswered, with the earlier counter; a different request never withheld; a response re-enables; request memory bounded with one entry per request. The last-100 clause is refuted by a kernel-checked witness (known finding lru-promotion). The model is tied to spine/send.go by an op-by-op differential run against the real Sender and a SPEC monitor on the implementation trace.",
     "level_note": "Trusted: Lean kernel; hand-written model Spine.Snd/Spine.Ctr; harness; A-hash (SHA-256 injective), A-lru (library modelled), A-atomic. Concurrent uniqueness is proved on the event-sourced model and only monitored (not explored exhaustively) on the real code.",
-    "props_modules": ["Spine.Props.C13"],
+    "props_modules": ["Spine.Props.C13", "Spine.Props.C13Gen"],
+    "generated_props": ["Spine.Props.C13Gen"],
+    "generated": ["sender"],
+    "generated_files": ["Sender.lean"],
+    "lemma_modules": ["Spine.SenderThm", "Spine.Counter", "Spine.SenderLru"],
     "drivers": ["drv_snd"],
     "tests": [{"name": "TestSender"}, {"name": "TestSenderWorld"}],
     "trusted_base": [
+        "translator generator `sender` (go/ast over spine/send.go, 150 lines): extracts the two cache constants and three critical-section facts the model's event granularity rests on",
         "model Spine.Snd / Spine.Ctr written by hand from spine/send.go; SHA-256 of destination+command modelled as an injective id (A-hash); golanguzb70/lrucache modelled as a 3-line list model read from its source (A-lru); atomic.AddUint64 as atomic fetch-add (A-atomic)",
     ],
     "assumptions": ["A-hash", "A-lru", "A-atomic", "interleavings of concurrent senders are covered by the event-sourced theorem c13_unique; the concurrent harness rounds only monitor"],
